@@ -59,6 +59,10 @@ def decorate(sc):
     so that the programs themselves stay what they were"""
     r = random.Random(sc["id"] * 2654435761 % (1 << 31))
     fin = 0 if sc["kind"] in CLONE_KINDS else 4       # discarding through the iterator clones the rest of a cloned() chunk
+    if sc["kind"] in ("range", "rangeref") and sc.get("len") == 0 and "end" not in sc and r.random() < 0.6:
+        # an empty range may also be written with its bounds inverted
+        sc["start"] = r.choice([3, 5])
+        sc["end"] = sc["start"] - r.choice([1, 2])
     for prog in [sc.get("pre", [])] + sc.get("threads", []) + [sc.get("post", [])]:
         for st in prog:
             if st["op"] in ("chunk", "bnext") and r.random() < 0.45:
